@@ -7,6 +7,7 @@ import Penguin.Model.Mux
 import Penguin.Lemmas.MuxBasic
 import Penguin.Lemmas.MuxStep
 import Penguin.Lemmas.PairCor
+import Penguin.Lemmas.MuxBound
 
 namespace Penguin.C07
 open Penguin Penguin.Mux
@@ -103,6 +104,12 @@ theorem simultaneous_open_collision (e : EP) (fid req rwnd port : Nat) (host : B
     (hs : lookup e.flows fid = some (.requested req)) :
     processFrame e (.connect fid rwnd port host) ig = (e.enqFrame (.reset fid), [], none) := by
   simp [processFrame, hs]
+
+/-- The reserved flow id 0 is never in use: in every state an endpoint reaches — whatever its own
+    generator yields, whatever ids the peer proposes — no slot of the flow table is under id 0. -/
+theorem flow_id_zero_never_in_use (o : Opts) (ops : List Mux.Op) :
+    lookup (runOps { opts := o } ops).flows 0 = none :=
+  (reachable_bnd o ops).zero
 
 /-! Non-vacuity -/
 example : (appOpen { opts := {}, rng := [0, 5] } 1 [0x61] 80).1.outq
